@@ -151,6 +151,15 @@ func c10Oracle(in c10In) probe.Outcome {
 				return probe.Fail("step %d: IV repeated across calls", i)
 			}
 			ivs[string(ct2[:16])] = true
+			// ... nor across objects: a second object with the same key, system random source
+			var ct3 []byte
+			if err := probe.Try(func() error { var x error; ct3, x = fresh.Encrypt(probe.Exact(p)); return x }); err != nil {
+				return probe.Fail("step %d: Encrypt on a second object: %v", i, err)
+			}
+			if len(ct3) < 16 || ivs[string(ct3[:16])] {
+				return probe.Fail("step %d: IV repeated across cipher objects", i)
+			}
+			ivs[string(ct3[:16])] = true
 			kept = append(kept, held{p, ctL, append([]byte(nil), ctL...)}, held{p, ct2, append([]byte(nil), ct2...)})
 			if len(p) > 16 || len(p)%16 == 15 || len(p)%16 == 0 {
 				nontrivial = true
